@@ -1,0 +1,36 @@
+//go:build verif
+
+package hdrhist
+
+// This file is compiled only with the "verif" build tag. It adds read-only
+// accessors used by the external verification harness and changes no
+// behaviour.
+
+// VerifGeometry is the bucket geometry derived by New.
+type VerifGeometry struct {
+	UnitMagnitude               int64
+	SubBucketHalfCountMagnitude int64
+	SubBucketHalfCount          int64
+	SubBucketMask               int64
+	SubBucketCount              int64
+	BucketCount                 int64
+	CountsLen                   int64
+}
+
+func (h *Histogram) VerifGeometry() VerifGeometry {
+	return VerifGeometry{
+		UnitMagnitude:               h.unitMagnitude,
+		SubBucketHalfCountMagnitude: int64(h.subBucketHalfCountMagnitude),
+		SubBucketHalfCount:          int64(h.subBucketHalfCount),
+		SubBucketMask:               h.subBucketMask,
+		SubBucketCount:              int64(h.subBucketCount),
+		BucketCount:                 int64(h.bucketCount),
+		CountsLen:                   int64(h.countsLen),
+	}
+}
+
+func (h *Histogram) VerifCountsIndexFor(v int64) int64        { return int64(h.countsIndexFor(v)) }
+func (h *Histogram) VerifLowestEquivalent(v int64) int64      { return h.lowestEquivalentValue(v) }
+func (h *Histogram) VerifHighestEquivalent(v int64) int64     { return h.highestEquivalentValue(v) }
+func (h *Histogram) VerifSizeOfEquivalentRange(v int64) int64 { return h.sizeOfEquivalentValueRange(v) }
+func (h *Histogram) VerifCounts() []int64                     { return append([]int64(nil), h.counts...) }
